@@ -106,6 +106,12 @@ def afterPlugin (st : St) (pid : Nat) (res : PluginRes) (okOutcome : Bool → Ou
     ({ st with buffer := st.buffer ++ q ++ respQueue resp }, .reject (.pluginRaised pid) (respQueue resp), true)
   | .crash q => ({ st with buffer := st.buffer ++ q, escaped := true }, .escaped pid, false)
 
+/-- `self.request.buffer` when truthy: bytes received after the end of the first request -/
+def leftover (rq : Parser) : Option Bytes :=
+  match rq.buffer with
+  | some x => if x.isEmpty then none else some x
+  | none => none
+
 /-- `_parse_first_request(data)` together with the `except HttpProtocolException` arm of
     `handle_data` that catches what it raises.  Third component: `handle_data`'s return value. -/
 def parseFirst (cfg : Cfg) (st : St) (data : Bytes) : St × Outcome × Bool :=
@@ -126,7 +132,15 @@ def parseFirst (cfg : Cfg) (st : St) (data : Bytes) : St × Outcome × Bool :=
           ({ st with buffer := st.buffer ++ [cfg.badRequest] }, .reject (.noPlugin proto) [cfg.badRequest], true)
         | some pid =>
           let st := { st with plugin := some pid }
-          afterPlugin st pid (cfg.onComplete pid rq) (fun td => .served pid td) (fun td => td)
+          match cfg.onComplete pid rq, leftover rq with
+          | .ret q false, some rem =>
+            -- `if output is False and self.request.buffer:` the bytes that followed the first request in
+            -- the same segment are taken out of the parser and handed to plugin.on_client_data; what that
+            -- raises is caught by handle_data's except-arm like any other on_client_data call
+            afterPlugin { st with request := { rq with buffer := none }, buffer := st.buffer ++ q,
+                                  calls := st.calls + 1 } pid
+              (cfg.onClientData pid st.calls rem) (fun _ => .served pid false) (fun _ => false)
+          | res, _ => afterPlugin st pid res (fun td => .served pid td) (fun td => td)
 
 /-- `handle_data(data)` for `data is not None` -/
 def handleData (cfg : Cfg) (st : St) (data : Bytes) : St × Outcome × Bool :=
